@@ -3,6 +3,7 @@ CONSTANTS
   MaxField = 1000000
   Depth = 4
   MaxNF = 5
+  WithSub = FALSE
 INVARIANTS Refines ReadsAgree NFIsCount SplitLaws
-PROPERTIES ReadsAreSilent
+PROPERTIES ReadsAreSilent AssignRebuilds SubAssigns
 CHECK_DEADLOCK FALSE
